@@ -716,7 +716,10 @@ pub struct ClientStream {
     pub bytes: Vec<u8>,
     pub parsed_upto: usize,
     pub packets: Vec<CRec>,
+    /// fatal: the stream could not be framed / decoded any further from this offset
     pub error: Option<(usize, String)>,
+    /// non-fatal: packets that only decode after their fixed-header flags are repaired
+    pub soft_errors: Vec<(usize, String)>,
 }
 
 impl ClientStream {
@@ -774,7 +777,25 @@ impl ClientStream {
                 }
                 break;
             }
-            match decode_client(&buf[..total]) {
+            let mut decoded = decode_client(&buf[..total]);
+            if let Err(e) = &decoded {
+                // keep other monitors sighted: retry with the flag nibble the type demands
+                let ty = buf[0] >> 4;
+                let fixed = match ty {
+                    6 | 8 | 10 => Some((ty << 4) | 2),
+                    3 => None,
+                    _ => Some(ty << 4),
+                };
+                if let Some(b0) = fixed.filter(|b0| *b0 != buf[0]) {
+                    let mut copy = buf[..total].to_vec();
+                    copy[0] = b0;
+                    if let Ok(pkt) = decode_client(&copy) {
+                        self.soft_errors.push((self.parsed_upto, e.clone()));
+                        decoded = Ok(pkt);
+                    }
+                }
+            }
+            match decoded {
                 Ok(pkt) => {
                     let start = self.parsed_upto;
                     self.packets.push(CRec {
